@@ -6,8 +6,8 @@ Every loop condition, the ELF_ST_BIND tests, the `first_not_local < count && cur
 decision, the pointer offset `index * entry_size`, the callback arguments, the value handed to
 `set_info`, the return value, and swap_symbols' comparisons / new indices / r_info packing are
 the *generated* expressions of Gen/SitesC10.lean.  Hand-written: the control skeleton (two inner
-scans inside `while (true)`), `++first_not_local` / `++current` (32-bit / 64-bit increments),
-`std::swap(*p1, *p2)` as two checked reads followed by two checked writes of `sizeof(T)` bytes,
+scans inside `while (true)`), the `convertor` applied to the one-byte `st_info` (the generated
+8-bit overload `arr_conv8`, the identity), `std::swap(*p1, *p2)` as two checked reads followed by two checked writes of `sizeof(T)` bytes,
 and the field reads/writes through `rdField` / `wrField`.
 
 Integer state has the C++ widths: `first_not_local : Elf_Word` (BitVec 32), `current`,
@@ -44,6 +44,8 @@ structure SymSites where
   scan1Cond : BitVec 32 → BitVec 64 → Bool
   scan1NonLocal : BitVec 8 → Bool
   curInit : BitVec 32 → BitVec 64
+  fnlIncr : BitVec 32 → BitVec 32                 -- `++first_not_local`
+  curIncr : BitVec 64 → BitVec 64                 -- `++current`
   scan2Cond : BitVec 64 → BitVec 64 → Bool
   scan2Local : BitVec 8 → Bool
   both : BitVec 32 → BitVec 64 → BitVec 64 → Bool
@@ -56,8 +58,9 @@ def sites32 : SymSites :=
   { symSize := sizeof_Elf32_Sym, infoOff := Elf32_Sym.st_info_off, minSize := arr_min32,
     ptrOk := arr32_ptr_ok, ptrSmall := arr32_ptr_small, ptrOff := arr32_ptr_off,
     fnlInit := arr32_fnl_init, p1Index := arr32_p1_index, p2Index := arr32_p2_index,
-    scan1Cond := arr32_scan1_cond, scan1NonLocal := arr32_scan1_nonlocal,
-    curInit := arr32_cur_init, scan2Cond := arr32_scan2_cond, scan2Local := arr32_scan2_local,
+    scan1Cond := arr32_scan1_cond, scan1NonLocal := arr32_scan1_nonlocal arr_conv8,
+    curInit := arr32_cur_init, scan2Cond := arr32_scan2_cond, scan2Local := arr32_scan2_local arr_conv8,
+    fnlIncr := arr32_fnl_incr, curIncr := arr32_cur_incr,
     both := arr32_both, cbFirst := arr32_cb_first, cbSecond := arr32_cb_second,
     setInfo := arr32_set_info, ret := arr32_ret }
 
@@ -65,8 +68,9 @@ def sites64 : SymSites :=
   { symSize := sizeof_Elf64_Sym, infoOff := Elf64_Sym.st_info_off, minSize := arr_min64,
     ptrOk := arr64_ptr_ok, ptrSmall := arr64_ptr_small, ptrOff := arr64_ptr_off,
     fnlInit := arr64_fnl_init, p1Index := arr64_p1_index, p2Index := arr64_p2_index,
-    scan1Cond := arr64_scan1_cond, scan1NonLocal := arr64_scan1_nonlocal,
-    curInit := arr64_cur_init, scan2Cond := arr64_scan2_cond, scan2Local := arr64_scan2_local,
+    scan1Cond := arr64_scan1_cond, scan1NonLocal := arr64_scan1_nonlocal arr_conv8,
+    curInit := arr64_cur_init, scan2Cond := arr64_scan2_cond, scan2Local := arr64_scan2_local arr_conv8,
+    fnlIncr := arr64_fnl_incr, curIncr := arr64_cur_incr,
     both := arr64_both, cbFirst := arr64_cb_first, cbSecond := arr64_cb_second,
     setInfo := arr64_set_info, ret := arr64_ret }
 
@@ -113,7 +117,7 @@ def scan1 (k : SymSites) : Nat → SecBuf → BitVec 64 → BitVec 32 → Option
       | .error e => .error e
       | .ok info =>
         if k.scan1NonLocal info then .ok (s, fnl, p1)
-        else scan1 k fuel s count (fnl + 1) p1
+        else scan1 k fuel s count (k.fnlIncr fnl) p1
     else .ok (s, fnl, p1)
 
 /-- second inner loop: advance `current` over non-local symbols -/
@@ -127,7 +131,7 @@ def scan2 (k : SymSites) : Nat → SecBuf → BitVec 64 → BitVec 64 → Option
       | .error e => .error e
       | .ok info =>
         if k.scan2Local info then .ok (s, cur, p2)
-        else scan2 k fuel s count (cur + 1) p2
+        else scan2 k fuel s count (k.curIncr cur) p2
     else .ok (s, cur, p2)
 
 /-- `std::swap(*p1, *p2)` : `T tmp = *p1; *p1 = *p2; *p2 = tmp;` on `sizeof(T)` bytes -/
